@@ -46,7 +46,7 @@ Definition sess_obfuscate (ss : session_sizes) (c : option aead) (key : list N) 
   (r : N * list N) : option (list N) :=
   encode_in_buf c key f (pad_len (f_seq f) (fst r)) (snd r) (ss_sendbuf ss).
 
-(* s.writingFrame.Seq++ on a uint64 *)
+(* s.writingFrame.Seq++ on a uint64 (obfuscateAndSend, after a successful obfuscate) *)
 Definition next_seq (s : N) : N := ((s + 1) mod 2 ^ 64)%N.
 
 Inductive send_end :=
@@ -70,7 +70,8 @@ Definition closing_session : N := Z.to_N mux_closingSession.
 (* [rest] = in[n:].  One iteration of  for n < len(in) { ... }  per unit of fuel:
      if len(in)-n <= maxStreamUnitWrite { framePayload = in[n:] }
      else { if Unordered { return io.ErrShortBuffer }; framePayload = in[n : maxStreamUnitWrite+n] }
-     obfuscateAndSend(buf, 0)   (Seq++ whether or not obfuscate failed)
+     obfuscateAndSend(buf, 0)   (Seq++ only after obfuscate succeeded: a frame that cannot be
+                                 encoded does not consume a sequence number)
    in[n : unit+n] is out of range exactly when unit < 0 (unit+n < len(in) in this branch). *)
 Fixpoint write_loop (fuel : nat) (ss : session_sizes) (unordered : bool) (c : option aead)
   (key : list N) (sid seq : N) (rest : list N) (k : nat) (rand : draws) : send_result :=
@@ -83,7 +84,7 @@ Fixpoint write_loop (fuel : nat) (ss : session_sizes) (unordered : bool) (c : op
           let unit := ss_unit ss in
           if zlen rest <=? unit then
             match sess_obfuscate ss c key (mkFrame sid seq closing_nothing rest) (rand k) with
-            | None => mkRes [] 0 (next_seq seq) EndObfsError
+            | None => mkRes [] 0 seq EndObfsError
             | Some msg => mkRes [msg] (zlen rest) (next_seq seq) EndOk
             end
           else if unordered then mkRes [] 0 seq EndShortBuffer
@@ -92,7 +93,7 @@ Fixpoint write_loop (fuel : nat) (ss : session_sizes) (unordered : bool) (c : op
             | None => mkRes [] 0 seq EndPanic
             | Some chunk =>
                 match sess_obfuscate ss c key (mkFrame sid seq closing_nothing chunk) (rand k) with
-                | None => mkRes [] 0 (next_seq seq) EndObfsError
+                | None => mkRes [] 0 seq EndObfsError
                 | Some msg =>
                     let r := write_loop fuel' ss unordered c key sid (next_seq seq)
                                (skipn (Z.to_nat unit) rest) (S k) rand in
@@ -127,7 +128,7 @@ Fixpoint read_from_loop (ss : session_sizes) (c : option aead) (key : list N) (s
         let n := Z.max 0 (zmin3 sz (ss_unit ss) (zlen data)) in
         let chunk := firstn (Z.to_nat n) data in
         match sess_obfuscate ss c key (mkFrame sid seq closing_nothing chunk) (rand k) with
-        | None => mkRes [] 0 (next_seq seq) EndObfsError
+        | None => mkRes [] 0 seq EndObfsError
         | Some msg =>
             let r := read_from_loop ss c key sid (next_seq seq) (skipn (Z.to_nat n) data) sizes'
                        (S k) rand in
@@ -156,7 +157,7 @@ Definition closing_notice (ss : session_sizes) (c : option aead) (key : list N)
   then mkRes [] 0 seq EndPanic
   else
     match sess_obfuscate ss c key (mkFrame sid seq closing (firstn (Z.to_nat padLen) filler)) r with
-    | None => mkRes [] 0 (next_seq seq) EndObfsError
+    | None => mkRes [] 0 seq EndObfsError
     | Some msg => mkRes [msg] 0 (next_seq seq) EndOk
     end.
 
@@ -191,14 +192,14 @@ Fixpoint write_plan (fuel : nat) (ss : session_sizes) (unordered : bool) (tagLen
         let unit := ss_unit ss in
         if rest <=? unit then
           match obfuscate_len ss tagLen seq rest (rand k) with
-          | None => mkPlan [] 0 (next_seq seq) EndObfsError
+          | None => mkPlan [] 0 seq EndObfsError
           | Some l => mkPlan [(rest, l)] rest (next_seq seq) EndOk
           end
         else if unordered then mkPlan [] 0 seq EndShortBuffer
         else if unit <? 0 then mkPlan [] 0 seq EndPanic
         else
           match obfuscate_len ss tagLen seq unit (rand k) with
-          | None => mkPlan [] 0 (next_seq seq) EndObfsError
+          | None => mkPlan [] 0 seq EndObfsError
           | Some l =>
               let r := write_plan fuel' ss unordered tagLen (next_seq seq) (rest - unit) (S k) rand in
               mkPlan ((unit, l) :: p_msgs r) (unit + p_n r) (p_seq r) (p_end r)
@@ -220,7 +221,7 @@ Fixpoint read_from_plan (ss : session_sizes) (tagLen : Z) (seq : N) (avail : Z) 
         else
           let n := Z.max 0 (zmin3 sz (ss_unit ss) avail) in
           match obfuscate_len ss tagLen seq n (rand k) with
-          | None => mkPlan [] 0 (next_seq seq) EndObfsError
+          | None => mkPlan [] 0 seq EndObfsError
           | Some l =>
               let r := read_from_plan ss tagLen (next_seq seq) (avail - n) sizes' (S k) rand in
               mkPlan ((n, l) :: p_msgs r) (n + p_n r) (p_seq r) (p_end r)
@@ -233,6 +234,6 @@ Definition closing_notice_plan (ss : session_sizes) (tagLen : Z) (seq : N) (b : 
   then mkPlan [] 0 seq EndPanic
   else
     match obfuscate_len ss tagLen seq padLen r with
-    | None => mkPlan [] 0 (next_seq seq) EndObfsError
+    | None => mkPlan [] 0 seq EndObfsError
     | Some l => mkPlan [(padLen, l)] 0 (next_seq seq) EndOk
     end.
